@@ -59,7 +59,7 @@ class LRUAsyncCallable(Protocol[AC]):
     def cache_parameters(self) -> CacheParameters: ...
     def cache_info(self) -> CacheInfo: ...
     def cache_clear(self) -> None: ...
-    def cache_discard(self, *args: Any, **kwargs: Any) -> None: ...
+    def cache_discard(self, /, *args: Any, **kwargs: Any) -> None: ...
 
 class LRUAsyncBoundCallable(Generic[S, P, R]):
     __slots__: tuple[str, ...]
@@ -87,7 +87,7 @@ class LRUAsyncBoundCallable(Generic[S, P, R]):
     def cache_parameters(self) -> CacheParameters: ...
     def cache_info(self) -> CacheInfo: ...
     def cache_clear(self) -> None: ...
-    def cache_discard(self, *args: Any, **kwargs: Any) -> None: ...
+    def cache_discard(self, /, *args: Any, **kwargs: Any) -> None: ...
 
 @overload
 def lru_cache(maxsize: AC, typed: bool = ...) -> LRUAsyncCallable[AC]: ...
